@@ -69,7 +69,9 @@ Proof. intro Hl. simpl. destruct j; try reflexivity. rewrite (enum_assoc S n vs 
 (* ------------------------------------------------------------------------------------------- *)
 (* the additional guard of the strictness direction *)
 Definition field_strict (C : cfg) (S : schema) (nested : bool) (tn : string) (f : fnode) : bool :=
-  if String.eqb (fn_name f) "__typename" then nested       (* F29: at the operation root it is a plain str *)
+  (* F29: at the operation root __typename is a plain str; under @skip/@include it is Optional and also
+     admits an explicit null *)
+  if String.eqb (fn_name f) "__typename" then nested && negb (fn_cond f)
   else match schema_field_type S tn (fn_name f) with
        | Ok t =>
            (* an Optional added for @skip/@include on a non-null type also admits an explicit null *)
@@ -201,7 +203,7 @@ Section LevelS.
   Variables (fuel' g : nat) (cs : list pclass).
   Variable W : ann -> json -> bool.
   (* ok / strict: the guards required of nested selection sets *)
-  Variable ok : string -> string -> list sel -> bool.
+  Variable ok : bool -> string -> string -> list sel -> bool.
   Variable strict : string -> list sel -> bool.
   Hypothesis W_opt : forall a j, W (AOpt a) j = is_null j || W a j.
   Hypothesis W_list : forall a j, W (AList a) j = match j with JArr l => forallb (W a) l | _ => false end.
@@ -222,7 +224,7 @@ Section LevelS.
   Hypothesis fuel_pos : exists f2, fuel' = Datatypes.S f2.
   Hypothesis W_class : forall pub cn2 tn2 sels2 at2 out2 pub2 kv,
       parse_type_def fuel' C S frs pub cn2 tn2 sels2 at2 [] (Some [tn2]) = Ok (out2, pub2, false) ->
-      ok tn2 tn2 sels2 = true -> strict tn2 sels2 = true -> (at2 = true -> has_typename sels2 = true) ->
+      ok at2 tn2 tn2 sels2 = true -> strict tn2 sels2 = true -> (at2 = true -> has_typename sels2 = true) ->
       table_ok cs out2 -> W (AClass cn2) (JObj kv) = true ->
       ev (fun fc => obj_lconf fc S frs tn2 sels2 kv).
 
@@ -237,23 +239,24 @@ Section LevelS.
     | _, _ => true
     end.
 
-  Lemma field_value_rev cn tn tv nested f pf ctx pub0 exc pub1 v :
-    field_ok ok g true S nested tn tn f = true ->
+  Lemma field_value_rev cn tn tv nested at_ f pf ctx pub0 exc pub1 v :
+    field_ok ok g true S at_ tn tn f = true ->
     field_strict C S nested tn f = true -> sub_strict tn f = true ->
     tv = (if nested then Some [tn] else None) ->
-    field_pf C S frs fuel' cn tn tv f = Ok (pf, ctx) ->
+    field_pf C S frs fuel' cn tn tv at_ f = Ok (pf, ctx) ->
     parse_subs (parse_type_def fuel' C S frs) S ctx f pub0 = Ok (exc, pub1, false) ->
     table_ok cs exc -> W (p_ann pf) v = true -> value_lconf tn f v.
   Proof.
     intros Hok Hst Hss Htv Hpf Hsub Htab Hw.
-    destruct (field_pf_inv _ _ _ _ _ _ _ _ _ _ Hpf) as [t [a0 [il [Ht [Ha Hpf']]]]]. subst pf.
+    destruct (field_pf_inv _ _ _ _ _ _ _ _ _ _ _ Hpf) as [t [a0 [il [Ht [Ha Hpf']]]]]. subst pf.
     cbn [p_ann mk_pfield] in Hw.
     unfold field_ok in Hok. apply andb_true_iff in Hok as [Hmix Hok].
     destruct (fn_mixins f) eqn:Emix; [| discriminate]. clear Hmix.
     unfold value_lconf. unfold field_strict in Hst.
     destruct (String.eqb (fn_name f) "__typename") eqn:Etn.
-    - subst nested tv. unfold field_ann_lit in Ha. rewrite Etn in Ha. simpl in Ha. inversion Ha; subst.
-      unfold cond_ann in Hw. apply W_lit, Hw.
+    - apply andb_true_iff in Hst as [Hnest Hnc]. apply negb_true_iff in Hnc.
+      subst nested tv. unfold field_ann_lit in Ha. rewrite Etn in Ha. simpl in Ha. inversion Ha; subst.
+      unfold cond_ann in Hw. rewrite Hnc in Hw. apply W_lit. destruct (true && at_); exact Hw.
     - assert (Hne : fn_name f <> "__typename") by (apply String.eqb_neq, Etn).
       rewrite Ht in Hok, Hst. apply andb_true_iff in Hok as [Hwf Hok]. apply andb_true_iff in Hwf as [Hwf _].
       apply andb_true_iff in Hst as [Hcn Hcfg].
@@ -264,7 +267,7 @@ Section LevelS.
       { unfold field_ann_lit in Ha. rewrite Etn in Ha.
         destruct tv as [[|v0 vs]|]; apply bind_ok in Ha; destruct Ha as [r [Hr Ha]];
           inversion Ha; subst; exists r; auto. }
-      destruct Ha' as [r [Hr [E1 [E2 E3]]]]. subst a0 ctx il. clear Ha.
+      destruct Ha' as [r [Hr [E1 [E2 E3]]]]. subst a0 ctx il. clear Ha. cbn [andb] in Hw.
       destruct (field_type_ann_image C S frs fuel' (fn_sub f) sc t true r Hwf Hr) as [img [Himg [Hfst _]]].
       simpl in Hfst. rewrite Hfst in Hw. unfold image in Himg.
       rewrite (cond_ann_id _ t img _ Hcn Himg) in Hw.
@@ -386,9 +389,9 @@ Section LevelS.
     (forall s, p_alias pf = Some s -> String.eqb (p_name pf) (field_key f) = false) /\
     (forall v, W (p_ann pf) v = true -> value_lconf tn f v).
 
-  Lemma level_facts_rev cn tn tv nested fns pub pfl extra pub' :
-    fields_run (parse_type_def fuel' C S frs) C S frs fuel' cn tn tv fns pub pfl extra pub' false ->
-    forallb (field_ok ok g true S nested tn tn) fns = true ->
+  Lemma level_facts_rev cn tn tv nested at_ fns pub pfl extra pub' :
+    fields_run (parse_type_def fuel' C S frs) C S frs fuel' cn tn tv at_ fns pub pfl extra pub' false ->
+    forallb (field_ok ok g true S at_ tn tn) fns = true ->
     forallb (fun f => field_strict C S nested tn f && sub_strict tn f) fns = true ->
     tv = (if nested then Some [tn] else None) -> table_ok cs extra ->
     Forall2 (field_facts_rev tn) fns pfl.
@@ -400,7 +403,7 @@ Section LevelS.
     apply andb_true_iff in Hst as [Hst Hss].
     assert (Hval : forall v, W (p_ann pf) v = true -> value_lconf tn f v).
     { intros v Hv. eapply field_value_rev; eauto. eapply table_ok_incl; eauto. }
-    destruct (field_pf_inv _ _ _ _ _ _ _ _ _ _ Hpf) as [t [a0 [il [Ht [Ha Hpf']]]]].
+    destruct (field_pf_inv _ _ _ _ _ _ _ _ _ _ _ Hpf) as [t [a0 [il [Ht [Ha Hpf']]]]].
     split; [subst pf; apply mk_pfield_key|]. split; [subst pf; reflexivity|].
     split; [| split; [| exact Hval]].
     - subst pf. cbn [p_default_none mk_pfield]. intro H. apply andb_true_iff in H as [_ H]. exact H.
@@ -500,7 +503,7 @@ Qed.
 
 Theorem obj_strict C S frs : forall fuel g gs nested pub cn tn sels at_ tv out pub' cs kv n,
   parse_type_def fuel C S frs pub cn tn sels at_ [] tv = Ok (out, pub', false) ->
-  sels_ok g true C S frs nested tn tn sels = true -> sels_strict gs C S frs nested tn sels = true ->
+  sels_ok g true C S frs at_ tn tn sels = true -> sels_strict gs C S frs nested tn sels = true ->
   (at_ = true -> has_typename sels = true) ->
   tv = (if nested then Some [tn] else None) -> table_ok cs out ->
   accepts n cs (schema_enums S) (AClass cn) (JObj kv) = true ->
@@ -509,7 +512,7 @@ Theorem obj_strict C S frs : forall fuel g gs nested pub cn tn sels at_ tv out p
 Proof.
   induction fuel as [|fuel IH]; intros g gs nested pub cn tn sels at_ tv out pub' cs kv n Hp Hok Hst Hat Htv Htab Hacc Hcov;
     [discriminate Hp|].
-  destruct (level_inv _ _ _ _ _ _ _ _ _ _ _ _ _ _ _ _ Hp Hok Hat) as [f2 [g' [fns [pfl [extra [Ef [Eg [Hfl [Hrun Hout]]]]]]]]].
+  destruct (level_inv _ _ _ _ _ _ _ _ _ _ _ _ _ _ _ Hp Hok Hat) as [f2 [g' [fns [pfl [extra [Ef [Eg [Hfl [Hrun Hout]]]]]]]]].
   destruct (sels_ok_inv _ _ _ _ _ _ _ _ _ Hok) as [g'' [fns' [Eg' [Hfl' [Hkeys [Hnames Hfields]]]]]].
   rewrite Eg in Eg'. inversion Eg'; subst g''. clear Eg'. specialize (Hnames eq_refl).
   rewrite Hfl in Hfl'. inversion Hfl'; subst fns'. clear Hfl'.
@@ -531,7 +534,7 @@ Proof.
     set (Wc := covers (Datatypes.S n1) cs) in *.
     assert (HF : Forall2 (field_facts_rev C S frs (fun a j => Wa a j && Wc a j) tn) fns pfl).
     { eapply level_facts_rev with (W := fun a j => Wa a j && Wc a j) (mro := mro_fields n1 cs)
-                                  (ok := sels_ok g' true C S frs true) (strict := sels_strict gs' C S frs true)
+                                  (ok := sels_ok g' true C S frs) (strict := sels_strict gs' C S frs true)
                                   (fuel' := fuel) (g := g') (cs := cs); try eassumption.
       - intros a j. unfold Wa, Wc. simpl. destruct (is_null j); reflexivity.
       - intros a j. unfold Wa, Wc. simpl. destruct j; try reflexivity. apply forallb_andb.
